@@ -55,7 +55,7 @@ def main():
         if not conf or conf.get("demo_with_patch_rc") != 1 or conf.get("demo_without_rc") != 0:
             print(f"{prop}-{n}: demonstration not confirmed, skipped")
             continue
-        if not tests or not re.search(r"\b\d+ passed", tests.get("tail", "")) or re.search(r"\b\d+ (failed|error)", tests.get("tail", "")):
+        if not tests or not re.search(r"\b\d+ passed", tests.get("tail", "")) or re.search(r"\b[1-9]\d* (failed|error)", tests.get("tail", "")):
             print(f"{prop}-{n}: test-suite not confirmed ({(tests or {}).get('tail', '')[-120:]!r}), skipped")
             continue
         d, how = seedrun.scratch(prop, n, "m")
@@ -85,7 +85,8 @@ def main():
             "confirmed": {
                 "demonstration": {"with_change_exit": conf["demo_with_patch_rc"], "without_change_exit": conf["demo_without_rc"],
                                   "command": "cd <tree> && PYTHONPATH=<tree> /venv/bin/python demo.py", "with_change_output_tail": conf.get("with_tail", "")[-300:]},
-                "test_suite": {"command": "cd <tree with change> && /venv/bin/python -m pytest -q -p no:cacheprovider -n 10 --timeout=900 tests",
+                "test_suite": {"command": "cd <tree with change> && /venv/bin/python -m pytest -q -p no:cacheprovider -n 8 <selection>",
+                               "selection": tests.get("mode", "full suite (tests/)"),
                                "result_tail": tests["tail"][-200:].strip(), "wall_s": tests.get("wall")},
             },
             "checks_run": checks,
